@@ -34,6 +34,8 @@ PROOF = "Gallia.Proofs.C11"
 DRIVER = "c11"
 ORACLE = False
 ASSUMPTIONS = [
+    "the client's view of the ECU state is the fold of updateState (Model/DbLog.lean: session control sets the session and clears the level, an even SecurityAccess sub-function sets level = type - 1, reset clears, the session read-back 62 F1 86 changes the state only when it reports another session) over the replies received so far; a row whose recorded state differs from that fold - everything else agreeing with the model - is reported as a violation of the property with the shrunk history, the per-reply agreement of ECU.update_state with updateState is checked separately (update-state table)",
+    "raw requests are the bytes handed to ECU.send_raw / ECU.request(RawRequest(..)); the stored request bytes are compared with the bytes the scripted transport received; that the logged object re-encodes to its input for all byte strings is C01's encode_decode (storedRequest, stored_request_is_wire)",
     "sqlite durability, the file system and aiosqlite's worker thread are trusted (rows are read back after disconnect()); a statement handed to the connection thread is executed even when the awaiting task is cancelled meanwhile (aiosqlite 0.22 contract, modelled)",
     "asyncio.Queue is FIFO and put() on an unbounded queue does not suspend; join() returns when every put() was matched by task_done(); asyncio.Lock is FIFO and release() only schedules the first waiter (the task that releases runs on to its next real suspension point) - what makes 'exchange ends, mutex released, row queued, state updated' one atomic step; the absence of awaits in that stretch is regenerated from the AST (finally_is_atomic, queue_unbounded)",
     "wall-clock timestamps (datetime.now) are non-decreasing during a run",
@@ -116,10 +118,15 @@ OUTCOMES = [
 NRCS = [0x10, 0x11, 0x12, 0x13, 0x22, 0x24, 0x31, 0x33, 0x35, 0x36, 0x37, 0x7E, 0x7F]
 
 
-def _plan(rng, K, ki, outcome, implicit=True, tags="rand", yields=0):
+def _plan(rng, K, ki, outcome, implicit=True, tags="rand", yields=0, reply=None, raw=None, via=None):
+    """one exchange: request kind `K[ki]` - or, with `raw` (bytes), those bytes handed to one of the client's raw entry
+    points (`via`: ECU.send_raw / ECU.request(RawRequest)); `ki` then only names the kind the reply pool is taken from"""
     label, req, replies = K[ki]
-    reply = rng.choice(replies)
-    sid = req.pdu[0]
+    if raw is not None:
+        label = "raw-bytes"
+        replies = [r for r in replies if r[0] == (raw[0] + 0x40) % 256] or [bytes([(raw[0] + 0x40) % 256]) + raw[1:3]]
+    reply = reply if reply is not None else rng.choice(replies)
+    sid = raw[0] if raw is not None else req.pdu[0]
     neg = bytes([0x7F, sid, rng.choice(NRCS)])
     pend = bytes([0x7F, sid, 0x78])
     busy = bytes([0x7F, sid, 0x21])
@@ -174,8 +181,11 @@ def _plan(rng, K, ki, outcome, implicit=True, tags="rand", yields=0):
         raise ValueError(outcome)
     if tags == "rand":
         tags = rng.choice([None, None, "nocfg", [], ["ANALYZE"], ["ANALYZE"], ["scan", "ANALYZE"], ["analyze"], ["X"]])
-    return {"kind": label, "ki": ki, "outcome": outcome, "script": [[e[0]] + [x.hex() for x in e[1:]] for e in script],
+    plan = {"kind": label, "ki": ki, "outcome": outcome, "script": [[e[0]] + [x.hex() for x in e[1:]] for e in script],
             "wscript": wscript, "tags": tags, "max_retry": max_retry, "implicit": implicit, "yields": yields}
+    if raw is not None:
+        plan.update(raw=raw.hex(), via=via or "send_raw")
+    return plan
 
 
 # ------------------------------------------------------------------------------------------------------------------
@@ -343,6 +353,8 @@ async def _body(env, case, path, out):
                 asyncio.current_task().cancel()
                 await asyncio.sleep(0)
             _, req, _ = K[p["ki"]]
+            if p.get("raw") is not None:
+                req = S.RawRequest(bytes.fromhex(p["raw"]))
             ecu.implicit_logging = p["implicit"]
             tags = p["tags"]
             cfg = None if tags == "nocfg" else env["Cfg"](tags=tags, max_retry=p["max_retry"])
@@ -360,12 +372,15 @@ async def _body(env, case, path, out):
                     script.insert(crash["at"][1], ["cancel"])
             tr.begin(script, wscript)
             o = {"i": i, "req_cls": type(req).__name__, "implicit": p["implicit"],
-                 "analyze": isinstance(tags, list) and "ANALYZE" in tags,
+                 "analyze": isinstance(tags, list) and "ANALYZE" in tags, "raw": p.get("raw"), "via": p.get("via"),
                  "pre": [ecu.state.session, ecu.state.security_access_level], "t0": time.time()}
             obs.append(o)
             fatal = None
             try:
-                resp = await ecu.request(req, cfg)
+                if p.get("raw") is not None and p.get("via") == "send_raw":
+                    resp = await ecu.send_raw(bytes.fromhex(p["raw"]), cfg)
+                else:
+                    resp = await ecu.request(req, cfg)
                 o.update(out="ret", resp_cls=type(resp).__name__)
             except asyncio.CancelledError:
                 o.update(out="cancel")
@@ -513,6 +528,8 @@ def judge(res, case):
 
     def ident(e):
         o = by_i[e["i"]]
+        if o.get("raw") is not None:
+            return f"raw-sid={o['raw'][:2]}:via={o['via']}:out={o['out']}"
         if o.get("resp_cls"):
             return f"resp={o['resp_cls']}:out={o['out']}"
         return f"req={o['req_cls']}:out={o['out']}"
@@ -521,7 +538,10 @@ def judge(res, case):
     for k in range(n):
         if not _row_eq(exp[k], rows[k]):
             # a missing row shows as a shift
-            if k + 1 < len(exp) and _row_eq(exp[k + 1], rows[k]) or exp[k]["req"] != rows[k]["req"]:
+            only_req = (len(exp) == len(rows) and all(exp[k][f] == rows[k][f] for f in FIELDS if f != "req")
+                        and exp[k]["has_recv"] == (rows[k]["t_resp"] is not None)
+                        and all(_row_eq(exp[m], rows[m]) for m in range(k + 1, min(n, k + 2))))
+            if not only_req and (k + 1 < len(exp) and _row_eq(exp[k + 1], rows[k]) or exp[k]["req"] != rows[k]["req"]):
                 if not any(_row_eq(exp[k], r) for r in rows):
                     return ("row-missing:" + ident(exp[k]) + where, f"no row for exchange {exp[k]['i']}", exp[k]["i"])
                 return ("row-order:" + ident(exp[k]) + where, f"row of exchange {exp[k]['i']} is out of order", exp[k]["i"])
@@ -738,14 +758,89 @@ def compare_model(ctx, pending):
                          impl=None, model=out[off: off + n], spec_violated=False)
             continue
         m_done, m_rows = parse_model_rows(line)
-        rows = [{"mode": r["mode"], "state": r["state"], "req": r["req"], "resp": r["resp"],
-                 "has_recv": r["t_resp"] is not None, "exc": r["exc"]} for r in res["rows"]]
+        rows = _cmp_rows(res)
         if m_rows != rows or m_done != n_done:
             k = next((i for i in range(min(len(rows), len(m_rows))) if rows[i] != m_rows[i]), min(len(rows), len(m_rows)))
             fields = [f for f in (rows[k] if k < len(rows) else {}) if k < len(m_rows) and rows[k][f] != m_rows[k][f]]
+            if fields == ["state"]:
+                _state_violation(ctx, case, res, m_rows, k)
+                continue
             ctx.disagree("c11:model-vs-code:" + ("+".join(fields) or "row-count"),
                          f"rows left by the real stack differ from the model at row {k} ({fields})", _case_json(case),
                          impl=rows, model=m_rows, spec_violated=False, site="Model/DbLog.lean vs ECU._request/update_state")
+
+
+def _cmp_rows(res):
+    return [{"mode": r["mode"], "state": r["state"], "req": r["req"], "resp": r["resp"],
+             "has_recv": r["t_resp"] is not None, "exc": r["exc"]} for r in res["rows"]]
+
+
+def _model_rows(ctx, case, res):
+    ls, _ = model_lines(case, res, ctx.rng)
+    out = ctx.lean(ls)
+    if "|" not in out[-1]:
+        return None
+    return parse_model_rows(out[-1])[1]
+
+
+def _first_state_diff(rows, m_rows):
+    """index of the first row that equals the model's row in everything but the recorded state (None: no such row, or an
+    earlier difference of another kind)"""
+    for k in range(min(len(rows), len(m_rows))):
+        if rows[k] != m_rows[k]:
+            return k if all(rows[k][f] == m_rows[k][f] for f in rows[k] if f != "state") else None
+    return None
+
+
+def _state_violation(ctx, case, res, m_rows, k):
+    """A row of the real stack records a state that is not the client's view before that request: the view is the fold
+    of `updateState` (Model/DbLog.lean; theorems state_is_pre_state, level_survives_same_session_readback) over the replies of the exchanges before it -
+    everything else in the row agrees with the model.  Shrink the history (drop exchanges one at a time, cut the tail)
+    while such a row remains, then report the history as the failing input."""
+    best = (case, res, m_rows, k)
+
+    def attempt(plans):
+        c = {"plans": plans, "crash": None}
+        r = run_case(c)
+        if judge(r, c) is not None:
+            return None
+        m = _model_rows(ctx, c, r)
+        kk = _first_state_diff(_cmp_rows(r), m) if m is not None else None
+        return None if kk is None else (c, r, m, kk)
+
+    n_rep = getattr(ctx, "_c11_state_reports", 0)
+    ctx._c11_state_reports = n_rep + 1
+    if n_rep >= 12:
+        ctx.notes["state_violations_not_reported_separately"] = n_rep - 11
+        return
+    if not case.get("crash") and n_rep < 4:  # shrinking re-runs the real stack: the first few reports only
+        budget = 40
+        # the history up to the row's own exchange, then drop exchanges one at a time
+        logged = [o for o in res["obs"] if o.get("implicit") and o.get("writes") and "out" in o]
+        if k < len(logged):
+            t = attempt([dict(p, yields=0) for p in case["plans"][: logged[k]["i"] + 1]])
+            budget -= 1
+            if t is not None:
+                best = t
+        j = 0
+        while budget > 0 and len(best[0]["plans"]) > 1 and j < len(best[0]["plans"]):
+            cur = best[0]["plans"]
+            budget -= 1
+            t = attempt(cur[:j] + cur[j + 1:])
+            if t is not None:
+                best = t
+            else:
+                j += 1
+    c, r, m, kk = best
+    rows = _cmp_rows(r)
+    logged = [o for o in r["obs"] if o.get("implicit") and o.get("writes") and "out" in o]
+    prev = [o for o in logged if o["i"] < logged[kk]["i"]] if kk < len(logged) else []
+    after = (prev[-1].get("resp_cls") or "none") if prev else "none"
+    ctx.disagree(f"c11:row-field:state:after-resp={after}",
+                 f"row {kk} (request {rows[kk]['req']}) records the state {rows[kk]['state']} [session, security level], but the "
+                 f"client's view before that request - the state folded over the replies of the exchanges before it - is "
+                 f"{m[kk]['state']}", _case_json(c), impl={"rows": rows}, model={"rows": m},
+                 spec_violated=True, site="ECU.update_state / ECU._request (state snapshot)")
 
 
 def _state_corr(ctx):
@@ -796,6 +891,30 @@ def _state_corr(ctx):
                          site="ECU.update_state")
     ctx.kind(*["state-update"] * 1)
     ctx.exhaustive_parts.append(f"update_state: {len(pdus)} replies (all second bytes of 50/51/67, session DID variants) x {len(states)} states")
+
+
+def _stored_corr(ctx):
+    """the request object ECU._request logs (`UDSRequest.parse_dynamic(pdu)`, stored as its `.pdu`) against `storedRequest`
+    of the model, over the raw request bytes of `raw_pdus` (the histories of `gen_raw` check the stored rows themselves)"""
+    import random
+    env = _env()
+    S, K = env["S"], env["K"]
+    pdus = [b for _, b in raw_pdus(random.Random(ctx.seed * 7919 + 11), K, S, ctx.pick(2, 12))]
+    out = ctx.lean(["stored " + hx(b) for b in pdus])
+    for b, mo in zip(pdus, out):
+        ctx.ev()
+        try:
+            obj = S.UDSRequest.parse_dynamic(b)
+            impl = hx(bytes(obj.pdu))
+            cls = type(obj).__name__
+        except Exception as e:
+            impl, cls = "raises " + type(e).__name__, "none"
+        if impl != mo:
+            ctx.disagree(f"c11:stored-request:sid={b[:1].hex()}:{cls}",
+                         f"the request object logged for the wire bytes {b.hex()} ({cls}) re-encodes to {impl}; the model stores {mo}",
+                         {"wire": b.hex()}, impl=impl, model=mo, spec_violated=False, site="ECU._request: UDSRequest.parse_dynamic(request.pdu)")
+    ctx.kind("stored-request")
+    ctx.exhaustive_parts.append(f"logged request object vs storedRequest: {len(pdus)} raw byte strings (every sample request: all truncations, over-long, one byte changed; every service / sub-function id of the codec with bodies of length 0..7)")
 
 
 def _shape_of(v, depth=0):
@@ -902,6 +1021,126 @@ def _probe_qmax():
         return 0
 
 
+
+# ------------------------------------------------------------------------------------------------------------------
+# raw requests (ECU.send_raw / ECU.request(RawRequest)): arbitrary bytes for every service id the codec knows
+
+
+def _codec_sids(S):
+    """service ids and sub-function ids of the live codec registry"""
+    import inspect
+    sids = {}
+    for sid, svc in S.UDSService._SERVICES.items():
+        if sid is None:
+            continue
+        sfs = []
+        if issubclass(svc, S.SpecializedSubFunctionService):
+            sfs = sorted({x.SUB_FUNCTION_ID for x in svc.__dict__.values()
+                          if inspect.isclass(x) and issubclass(x, S.SubFunction) and x.SUB_FUNCTION_ID is not None})
+        sids[int(sid)] = sfs
+    return sids
+
+
+def raw_pdus(rng, K, S, per_sid):
+    """-> list of (ki, bytes): for every typed sample request its own bytes (well-formed), every truncation, over-long
+    variants (1..3 more bytes: odd lengths for the services that carry lists of fixed-size items) and one with a byte
+    changed; for every service id of the codec (and every sub-function id) short and random bodies of every length
+    0..7 and `per_sid` longer ones; a few unknown service ids"""
+    out = []
+    by_sid = {}
+    for ki, (_, req, _) in enumerate(K):
+        try:
+            b = bytes(req.pdu)
+        except Exception:
+            continue
+        by_sid.setdefault(b[0], ki)
+        out.append((ki, b))
+        for n in range(1, len(b)):
+            out.append((ki, b[:n]))
+        for extra in (1, 2, 3):
+            out.append((ki, b + bytes(rng.randrange(256) for _ in range(extra))))
+            out.append((ki, b + bytes(extra)))
+        if len(b) > 1:
+            j = rng.randrange(1, len(b))
+            out.append((ki, b[:j] + bytes([b[j] ^ (1 << rng.randrange(8))]) + b[j + 1:]))
+    sids = _codec_sids(S)
+    unknown = [x for x in range(256) if x not in sids]
+    for sid in sorted(sids) + rng.sample(unknown, 6):
+        ki = by_sid.get(sid, 0)
+        heads = [bytes([sid])] + [bytes([sid, sf | sup]) for sf in sids.get(sid, []) for sup in (0, 0x80)]
+        for h in heads:
+            out.append((ki, h))
+            for n in range(1, 8):
+                out.append((ki, h + bytes(rng.randrange(256) for _ in range(n))))
+                if n <= 4:
+                    out.append((ki, h + bytes(rng.choice([0x00, 0xF1, 0xFF, 0x01]) for _ in range(n))))
+        for _ in range(per_sid):
+            out.append((ki, bytes([sid]) + bytes(rng.randrange(256) for _ in range(rng.randint(8, 14)))))
+    seen, uniq = set(), []
+    for ki, b in out:
+        if b and b not in seen:
+            seen.add(b)
+            uniq.append((ki, b))
+    return uniq
+
+
+def gen_raw(ctx, K):
+    """histories of raw requests (several per history, any outcome) through both raw entry points"""
+    S = _env()["S"]
+    rng = ctx.rng
+    pdus = raw_pdus(rng, K, S, ctx.pick(1, 6))
+    rng.shuffle(pdus)
+    cases = []
+    per = 8
+    for off in range(0, len(pdus), per):
+        plans = []
+        for ki, b in pdus[off: off + per]:
+            oc = rng.choice(["positive", "positive", "negative", "negative", "timeout", "mismatch-positive", "malformed-positive", "pending-positive"])
+            plans.append(_plan(rng, K, ki, oc, implicit=rng.random() < 0.95, raw=b, via=rng.choice(["send_raw", "send_raw", "request"]),
+                               tags=rng.choice([None, "nocfg", ["ANALYZE"]])))
+        cases.append(("raw-bytes", {"plans": plans, "crash": None}))
+    ctx.notes["raw_request_pdus"] = len(pdus)
+    return cases
+
+
+# ------------------------------------------------------------------------------------------------------------------
+# walks over the replies that drive the client-side state (session control, reset, sendKey, session read-back)
+
+
+def gen_state_walks(ctx, K):
+    """histories over the requests whose positive replies drive ECU.update_state: the session read-back `22 F1 86` reports
+    the session the client already holds or another one, after a level was unlocked or not; further requests follow, so
+    every state reached is also recorded"""
+    rng = ctx.rng
+    idx = {lab: i for i, (lab, _, _) in enumerate(K)}
+    movers = ["dsc1", "dsc2", "dsc3", "reset", "seed1", "seed3", "key2", "key4", "rdbi-session", "rdbi-session", "rdbi-session",
+              "rdbi-multi", "tp", "rdbi", "wdbi"]
+    cases = []
+    for _ in range(ctx.pick(150, 1500)):
+        n = rng.randint(3, ctx.pick(9, 16))
+        believed = 1
+        plans = []
+        for _ in range(n):
+            lab = rng.choice(movers)
+            oc = rng.choice(["positive"] * 8 + ["negative", "timeout", "pending-positive", "mismatch-positive"])
+            reply = None
+            if lab == "rdbi-session":
+                sess = believed if rng.random() < 0.5 else rng.choice([1, 2, 3, 4, 0x40])
+                width = rng.choice([1, 1, 1, 2])
+                reply = bytes.fromhex("62f186") + sess.to_bytes(width, "big")
+                if oc in ("positive", "pending-positive"):
+                    believed = sess
+            elif oc in ("positive", "pending-positive"):
+                if lab.startswith("dsc"):
+                    believed = int(lab[3:])
+                elif lab == "reset":
+                    believed = 1
+            plans.append(_plan(rng, K, idx[lab], oc, reply=reply, tags=rng.choice([None, "nocfg", ["ANALYZE"]]),
+                               yields=rng.choice([0, 0, 1])))
+        cases.append(("state-walk", {"plans": plans, "crash": None}))
+    return cases
+
+
 def gen_cases(ctx):
     env = _env()
     K = env["K"]
@@ -912,6 +1151,9 @@ def gen_cases(ctx):
     cases += c11x.gen_life(ctx, K)
     cases += c11x.gen_multi(ctx, K)
     cases += c11x.gen_tables(ctx)
+    # 0b. raw requests with arbitrary bytes; walks over the state-driving replies
+    cases += gen_raw(ctx, K)
+    cases += gen_state_walks(ctx, K)
     # 1. every kind x every outcome class, alone (exhaustive over the two tables)
     for ki in range(len(K)):
         for oc in OUTCOMES:
@@ -991,12 +1233,17 @@ def run(ctx):
                 "point; distinct = distinct case JSON; every case has >= 1 exchange on the wire; non-trivial = all of them "
                 "(each runs the real ECU + DBHandler + sqlite file and is read back); the families multi / tables / life of "
                 "harness/lib/c11x.py: case = tasks with per-call reply scripts and latencies + cancellations + write faults, "
-                "resp. sessions of API calls + cut point + faults, resp. scanner options + constructor / main() steps")
+                "resp. sessions of API calls + cut point + faults, resp. scanner options + constructor / main() steps; raw-bytes: "
+                "histories of 8 raw requests (arbitrary bytes, entry point send_raw / request(RawRequest), any outcome); state-walk: "
+                "histories over the state-driving replies (session control, reset, sendKey, session read-back reporting the held / "
+                "another session) followed by further requests")
     _state_corr(ctx)
     _attrs_corr(ctx)
+    _stored_corr(ctx)
     cases = gen_cases(ctx)
     ctx.exhaustive_parts.append(f"every request kind ({len(_env()['K'])}) x every outcome class ({len(OUTCOMES)}) as a single-exchange history")
     ctx.exhaustive_parts.append("cancellation at every write / read await of multi-await exchanges (pending loop, retries)")
+    ctx.exhaustive_parts.append("raw requests through ECU.send_raw / ECU.request(RawRequest): every sample request's bytes, each of its truncations, over-long by 1..3 bytes, one byte changed; every service id and sub-function id of the live codec registry with bodies of length 0..7")
     ctx.exhaustive_parts.append("UDSScanner through entry_point(): the switch set in the constructor (5 patterns) x ping x properties x tester-present x ecu_reset")
     ctx.exhaustive_parts.append("every single-row write-fault pattern (execute / commit, 1..2 failures) on a burst of 3 queued rows")
     ctx.exhaustive_parts.append("the lifecycle order of DBHandler API calls (with and without discovery) cancelled at every awaited statement")
@@ -1037,8 +1284,17 @@ def replay(ctx, rec):
     _env()
     res = run_case(case)
     j = judge(res, case)
+    extra = {}
+    if j is None:
+        # the recorded state against the client's view as the model folds it over the replies
+        m = _model_rows(ctx, case, res)
+        rows = _cmp_rows(res)
+        k = _first_state_diff(rows, m) if m is not None else None
+        if k is not None:
+            j = ("row-field:state", f"row {k} records the state {rows[k]['state']}, the client's view before the request is {m[k]['state']}", k)
+            extra = {"model_rows": m}
     print(json.dumps({"rows": res["rows"], "warnings": res["warnings"], "end": res["end"],
-                      "expected_rows": expected_rows(res["obs"]), "verdict": j}, indent=1, default=str))
+                      "expected_rows": expected_rows(res["obs"]), "verdict": j} | extra, indent=1, default=str))
     return 1 if j is not None else 0
 
 
@@ -1059,11 +1315,18 @@ MANIFEST = {
                    "and the tables do not depend on the writer's interleaving (foreign_keys_resolve, writer_never_dies, "
                    "primary_keys_unique, tables_independent_of_writer_schedule). (4) The scanner-level implicit-logging switch: "
                    "with the statement order of UDSScanner.setup() regenerated from the AST every request is recorded exactly "
-                   "when the switch is on (setup_requests_follow_switch). Tied to the code by a correspondence run of the real ECU "
+                   "when the switch is on (setup_requests_follow_switch). (5) The stored request bytes are the wire bytes for every "
+                   "byte string handed to a raw entry point (stored_request_is_wire, over the dynamic parser of C01); the level unlocked "
+                   "by sendKey survives a session read-back that reports the held session and is dropped by one that reports another "
+                   "(readback_same_session_keeps_state, readback_other_session_resets, level_survives_same_session_readback). "
+                   "Tied to the code by a correspondence run of the real ECU "
                    "+ DBHandler + sqlite file: every request kind x outcome class, cancellation at every await, seeded "
                    "histories; 3 concurrent tasks incl. the real tester-present worker over scripted latencies with cancellations "
                    "and injected OperationalErrors; API-call programs in any order, cut at every awaited statement, two sessions per "
-                   "file, all tables read back + PRAGMA foreign_key_check; a real UDSScanner through entry_point()."),
+                   "file, all tables read back + PRAGMA foreign_key_check; a real UDSScanner through entry_point(); raw requests with "
+                   "arbitrary bytes (well-formed, truncated, over-long, odd-length, every service / sub-function id of the codec) through "
+                   "send_raw / request(RawRequest); walks over the state-driving replies with the recorded state judged against the "
+                   "model's fold."),
     "level_note": ("Trusted: Lean kernel, sqlite/aiosqlite/file system durability, asyncio.Queue / asyncio.Lock contracts, wall "
                    "clock monotonicity, the harness. The inner retry loop's outcome is an input of the model (C04 owns it). The "
                    "atomicity of the finally-block, the unbounded queue, the shape of the writer's retry loop, the awaited steps of "
